@@ -51,6 +51,20 @@ pub open spec fn complete(s: Seq<u8>) -> bool { s.len() >= 5 && s.len() >= 5 + h
 pub open spec fn first_payload(s: Seq<u8>) -> Seq<u8> { s.subrange(5, 5 + hdr_len(s)) }
 pub open spec fn after_first(s: Seq<u8>) -> Seq<u8> { s.skip(5 + hdr_len(s)) }
 
+pub proof fn lemma_be32_bytes(a: u8, b: u8, c: u8, d: u8)
+    ensures ({ let n = (a as int) * 16777216 + (b as int) * 65536 + (c as int) * 256 + (d as int);
+        &&& 0 <= n < 0x1_0000_0000
+        &&& (n / 16777216) % 256 == a
+        &&& (n / 65536) % 256 == b
+        &&& (n / 256) % 256 == c
+        &&& n % 256 == d })
+{
+    let n = (a as int) * 16777216 + (b as int) * 65536 + (c as int) * 256 + (d as int);
+    assert(n / 16777216 == a as int);
+    assert(n / 65536 == (a as int) * 256 + b as int);
+    assert(n / 256 == (a as int) * 65536 + (b as int) * 256 + c as int);
+}
+
 pub broadcast proof fn lemma_hdr_prefix(f: u8, n: int, b: Seq<u8>)
     requires 0 <= n < 0x1_0000_0000
     ensures
@@ -75,6 +89,7 @@ pub broadcast proof fn lemma_hdr_rebuild(s: Seq<u8>)
 {
     let t = s.skip(1);
     let n = be32_val(t);
+    lemma_be32_bytes(t[0], t[1], t[2], t[3]);
     assert(be32(n)[0] == t[0]);
     assert(be32(n)[1] == t[1]);
     assert(be32(n)[2] == t[2]);
